@@ -20,6 +20,7 @@ from .arrays import SArr, bv, forall, in_range, dim_term
 
 HIST = z3.DeclareSort("RngHist")
 H0 = z3.Function("rng_seeded", z3.IntSort(), HIST)
+HCHILD = z3.Function("rng_seeded_child", z3.IntSort(), z3.IntSort(), HIST)
 HN = z3.Function("rng_next", HIST, z3.IntSort(), z3.IntSort(), HIST)       # (hist, kind code, size) -> hist
 OUT01 = z3.Function("rng_out01", HIST, z3.IntSort(), z3.RealSort())           # uniform variate in [0, 1)
 OUTI = z3.Function("rng_outint", HIST, z3.IntSort(), z3.IntSort(), z3.IntSort(), z3.IntSort())  # (hist, t, lo, hi)
@@ -32,11 +33,16 @@ def _sym(*xs):
 
 
 class _SeedSeq:
+    """numpy SeedSequence: spawn() is stateful - every call hands out the *next* children (n_children_spawned grows)"""
+
     def __init__(self, seed, child=0):
         self.seed, self.child = seed, child
+        self.spawned = 0
 
     def spawn(self, n):
-        return [_SeedSeq(self.seed, self.child + 1 + k) for k in range(n)]
+        kids = [_SeedSeq(self.seed, self.child * 1000 + self.spawned + 1 + k) for k in range(n)]
+        self.spawned += n
+        return kids
 
 
 def SeedSequence(seed=None):
@@ -111,9 +117,10 @@ def default_rng(seed=None):
     ctx = Ctx.cur
     if isinstance(seed, _SeedSeq):
         s = seed.seed
-        if seed.child != 1:
-            raise Unsupported("seed sequence spawn pattern other than spawn(1)[0]")
         ctx.trust("numpy: default_rng(SeedSequence(s).spawn(1)[0]) is a deterministic function of s")
+        if seed.child != 1:
+            # not the first child of a fresh sequence: some other state (nothing is assumed to relate it to the first child's)
+            return SymGenerator(HCHILD(to_term(s), z3.IntVal(seed.child)), ("seed-child", s, seed.child))
         return SymGenerator(H0(to_term(s)), ("seed", s))
     if seed is None:
         return SymGenerator(z3.Const(ctx.fresh_name("rng_unseeded"), HIST), None)
